@@ -36,6 +36,9 @@ def check_extractors(ctx, rule, only=None):
         ctx.ob(rule, "extractor:%s" % name, good and type_errors,
                "%s returns the payload of Value::%s itself on that variant and the type error of the whole value otherwise" % (name, variant),
                where=f.span, detail={"exits": [(o["kind"], show(o["inner"] if o.get("inner") is not None else o["term"])[:100]) for o in outs]})
+    if only is None:
+        from rules import c10 as _c10
+        _c10.check_convert_helper(ctx, rule)          # try_as_array_then_convert: f over every element of the ARRAY, in order
     if only is None or "try_as_nonempty_bytes" in only:
         f = prog.fn(PREFIX + "try_as_nonempty_bytes")
         pv = Prov(f)
